@@ -131,6 +131,76 @@ def matrix(ctx, bodies):
     ctx.exhaustive['encoding_x_newline_x_shebang_x_kind_x_preserve'] = n
 
 
+CLI_ALL_OFF = ['--no-combine-imports', '--no-remove-pass', '--no-hoist-literals', '--no-rename-locals', '--no-remove-object-base',
+               '--no-convert-posargs-to-args', '--no-remove-explicit-return-none', '--no-remove-builtin-exception-brackets',
+               '--no-constant-folding', '--no-remove-annotations']
+
+
+def cli_matrix(ctx, bodies):
+    """the same matrix through the command line (file to stdout, --output, --in-place): the bytes written are the UTF-8
+    encoding of what the API returns for the file's bytes, and denote the same program"""
+    import os
+    import python_minifier
+    import clirun
+    from props import cli_common as cc
+    n = 0
+    with cc.Scratch() as d:
+        for body, first, (enc, cookie, bom), nl in itertools.product(bodies, [None, '#!/usr/bin/env python'], ENCODINGS, NEWLINES):
+            built = build(body, first, enc, cookie, bom, nl)
+            if built is None:
+                continue
+            text, data = built
+            try:
+                ref_tree = ast.parse(data)
+            except (SyntaxError, ValueError):
+                continue
+            opts = dict(c02.ALL_OFF)
+            opts['preserve_shebang'] = True
+            try:
+                api = python_minifier.minify(data, **opts).encode('utf-8')
+            except Exception:
+                continue
+            for mode in ('stdout', 'output', 'inplace'):
+                path = os.path.join(d, 'm.py')
+                with open(path, 'wb') as f:
+                    f.write(data)
+                argv = list(CLI_ALL_OFF)
+                outp = os.path.join(d, 'out.py')
+                if mode == 'output':
+                    argv += ['--output', outp]
+                elif mode == 'inplace':
+                    argv += ['--in-place']
+                r = clirun.run_cli(argv + [path], d, force=True)
+                n += 1
+                ctx.count()
+                ctx.bump('cli_mode', mode)
+                if r['exit'] != 0:
+                    ctx.add_violation({'input': {'body': body, 'first': first, 'encoding': enc, 'cookie': cookie, 'bom': bom, 'newline': nl, 'cli': mode},
+                                       'what': 'command line exits %s on a valid source (%s)' % (r['exit'], r['exc'] or r['stderr'][-120:]), 'found_by': 'cli-matrix',
+                                       'oracle': 'cli-matrix', 'shapes': []})
+                    continue
+                if mode == 'stdout':
+                    got = r['stdout']
+                else:
+                    with open(outp if mode == 'output' else path, 'rb') as f:
+                        got = f.read()
+                problems = []
+                if got != api:
+                    problems.append('command line wrote %r, the API result encoded as UTF-8 is %r' % (got[:80], api[:80]))
+                try:
+                    dd = astcmp.strict_equal(ref_tree, ast.parse(got))
+                    if dd:
+                        problems.append('the bytes written denote a different program: %s' % dd)
+                except (SyntaxError, ValueError) as e:
+                    problems.append('the bytes written do not parse: %s' % e)
+                if enc != 'utf-8' or nl != '\n' or first:
+                    ctx.mark_nontrivial('cli' + repr((body, first, enc, bom, nl, mode)))
+                if problems:
+                    ctx.add_violation({'input': {'body': body, 'first': first, 'encoding': enc, 'cookie': cookie, 'bom': bom, 'newline': nl, 'cli': mode},
+                                       'what': '; '.join(problems), 'found_by': 'cli-matrix', 'oracle': 'cli-matrix', 'shapes': []})
+    ctx.stage('cli_matrix', cases=n)
+
+
 def shebang_correspondence(ctx):
     """Lean model of _find_shebang vs the real function on text inputs (code points)."""
     from python_minifier import _find_shebang
@@ -160,15 +230,27 @@ def shebang_correspondence(ctx):
 def run(ctx):
     shebang_correspondence(ctx)
     matrix(ctx, BODIES[:ctx.scale(2, 6)])
+    cli_matrix(ctx, BODIES[:ctx.scale(3, 6)])
     ctx.sample({'stage': 'matrix', 'example': repr(build(BODIES[1], FIRST_LINES[1], 'latin-1', 'latin-1', False, '\r\n')[1])})
 
 
 def search(ctx):
     matrix(ctx, BODIES)
+    cli_matrix(ctx, BODIES)
 
 
 def replay(ctx, data):
     i = data.get('input') or {}
+    if 'body' in i and 'cli' in i:
+        n0 = len(ctx.violations)
+        global ENCODINGS, NEWLINES
+        keep = (ENCODINGS, NEWLINES)
+        ENCODINGS, NEWLINES = [(i['encoding'], i['cookie'], i['bom'])], [i['newline']]
+        try:
+            cli_matrix(ctx, [i['body']])
+        finally:
+            ENCODINGS, NEWLINES = keep
+        return len(ctx.violations) > n0
     if 'body' in i:
         return one_case(ctx, i['body'], i['first'], i['encoding'], i['cookie'], i['bom'], i['newline'], i['preserve'], i['bytes']) is not None
     return bool(data.get('broken'))
